@@ -149,6 +149,29 @@ def run(ctx, prog):
         ctx.inst('C13.R1', rec.short, 'snapshot load failure is propagated or decided by recovery_mode', not leaks,
                  'failure edge of %s at %s: %s' % (flow.short(c.callee), c.loc, 'reaches %s without asking recovery_mode' % ('the log replay' if leaks and leaks[0] in replay else 'a successful return') if leaks else 'every continuing path crosses a recovery_mode switch'))
 
+    # a listed segment that cannot be OPENED (damaged magic, truncated below the header, unreadable) is damage like a missing one: the failure edge of the open is
+    # propagated, or decided by recovery_mode on every path — it reaches neither the next segment of the loop nor a successful return without crossing a switch on
+    # recovery_mode (whose Strict edge refuses, above).  A `continue` on that edge drops every entry of the segment under Strict as well.
+    opens = [c for c in rec.calls_to('WalReader::open') if 'Manifest.wal_segments' in flow.render(flow.Origin(rec).of_operand(c.args[0]))] if rec.calls_to('WalReader::open') else []
+    ctx.floor('C13.R1', 'WalReader::open calls on a listed segment in recovery', len(opens), 1, 'the open at the head of the replay of each segment')
+    for c in opens:
+        s_e, f_e = flow.outcome_edges(rec, c)
+        if not f_e:
+            ctx.inst('C13.R1', rec.short, 'segment open failure is propagated or decided by recovery_mode', False,
+                     'the result of WalReader::open at %s is never tested: no failure edge to decide on' % c.loc)
+            continue
+        sw_blocks = sorted(set(s_[0] for s_ in strict))
+        errs = flow.err_blocks(rec)
+        starts = [e[1] for e in f_e]
+        heads = [h.bb for h in rec.calls if h.callee and h.is_('re:Iterator>::next$') and rec.dominates(h.bb, c.bb) and h.bb in rec.reach([c.bb])]
+        cut = sw_blocks + sorted(errs)
+        esc = rec.reach(starts, avoid_blocks=cut) | (set(starts) - set(cut))
+        leaks = [x for x in heads + list(rec.return_blocks()) if x in esc]
+        ctx.inst('C13.R1', rec.short, 'segment open failure is propagated or decided by recovery_mode', bool(heads) and not leaks,
+                 'failure edge of WalReader::open at %s: %s' % (c.loc, ('reaches %s without asking recovery_mode: %s' % (
+                     'the next segment' if leaks[0] in heads else 'a successful return', rt.path_witness(rec, rt.find_path(rec, starts, [leaks[0]], avoid_blocks=cut) or [])[-6:])) if leaks else
+                     'every continuing path crosses a recovery_mode switch or returns the error'))
+
     # what the replay may skip is decided by the snapshot that was actually loaded — a fallback snapshot with the MANIFEST's (newer) boundary would skip
     # the entries between the two snapshots and start with them missing
     of13 = flow.Origin(rec)
